@@ -334,8 +334,11 @@ def optCondTail (c x y : E) (p : Prec) : E :=
     | some e => e
     | none => commaCond c x y p
 
-/-- `optimizeCondExpr` after the normalisation of the condition -/
-def optCondN (ver2020 : Bool) (c x y : E) (p : Prec) : Option E :=
+/-- `optimizeCondExpr` after the normalisation of the condition.  `guarded = false` is the model of the Go code;
+    with `guarded = true` the function is undefined (`none`) where the known finding K-C01-2 applies: call merging
+    `c?f(a):f(b) → f(c?a:b)` below a condition that has side effects (the callee is then read before the condition
+    is evaluated) -/
+def optCondN (guarded : Bool) (ver2020 : Bool) (c x y : E) (p : Prec) : Option E :=
   match isTruthy c with
   | some true => some x
   | some false => some y
@@ -349,12 +352,12 @@ def optCondN (ver2020 : Bool) (c x y : E) (p : Prec) : Option E :=
       | .yes e => some e
       | .no =>
         match callMerge c x y with
-        | some e => some e
+        | some e => if guarded && hasSideEffects c then none else some e
         | none => some (optCondTail c x y p)
 
 /-- `optimizeCondExpr(&CondExpr{c, x, y}, prec)`; `ver2020 = m.o.minVersion(2020)`; `none` = outside the fragment -/
-def optCond (ver2020 : Bool) (c0 x0 y0 : E) (p : Prec) : Option E :=
-  optCondN ver2020 (condNormalize c0 x0 y0).1 (condNormalize c0 x0 y0).2.1 (condNormalize c0 x0 y0).2.2 p
+def optCond (guarded : Bool) (ver2020 : Bool) (c0 x0 y0 : E) (p : Prec) : Option E :=
+  optCondN guarded ver2020 (condNormalize c0 x0 y0).1 (condNormalize c0 x0 y0).2.1 (condNormalize c0 x0 y0).2.2 p
 
 /-- `condExpr(cond, x, y)` of util.go (used by the statement rewrites) -/
 def condExprU (c x y : E) : E :=
